@@ -84,6 +84,9 @@ class SemgrepResultSet(ResultSet):
 
         result_set = cls()
         for sarif_run in data["runs"]:
+            # a file may also hold runs of other tools: those results are not ours
+            if "tool" in sarif_run and not SemgrepSarifToolDetector.detect(sarif_run):
+                continue
             for result in sarif_run["results"]:
                 sarif_result = SemgrepResult.from_sarif(
                     result, sarif_run, truncate_rule_id
